@@ -997,6 +997,9 @@ fn run_parent(seed: u64, tier: Tier, runs: u64, workers: usize, want_log_hash: b
     });
     let dir = verif_root().join("evidence");
     let _ = std::fs::create_dir_all(&dir);
+    if std::env::args().any(|a| a == "--no-evidence") {
+        return code;
+    }
     if let Err(e) = std::fs::write(dir.join("C30.json"), serde_json::to_string_pretty(&ev).unwrap()) {
         eprintln!("harness error: cannot write evidence: {e}");
         return 2;
